@@ -196,7 +196,7 @@ def run(ctx, R):
     sub = Result("C10")
     c10.run(ctx, sub)
     for k, ok, d, w in sub.obligations:
-        if k.startswith("C10:flag-respecting-unify:") or k.startswith("C10:mode-wiring:"):
+        if k.startswith("C10:flag-respecting-unify:") or k.startswith("C10:mode-wiring:") or k.startswith("C10:occurs-check-failure-acted-on:") or k.startswith("C10:raw-bind-in-instruction-handler:"):
             R.ob("C44:occurs_check:takes-effect:" + k.split(":", 1)[1], ok, d, w)
 
     # ---- (3) terminal error clauses -----------------------------------------------------------------------------------
